@@ -80,6 +80,14 @@ type evidence struct {
 	Violations  int                    `json:"violations"`
 }
 
+// outDir: where evidence and replay files go (/verif, unless XVC_OUT redirects them for experiments on modified trees).
+func outDir() string {
+	if d := os.Getenv("XVC_OUT"); d != "" {
+		return d
+	}
+	return verifDir
+}
+
 func runCheck(repo, prop, tier string, opt Options, verbose bool) int {
 	t0 := time.Now()
 	seed, _ := strconv.Atoi(os.Getenv("VERIF_SEED"))
@@ -152,10 +160,10 @@ func runCheck(repo, prop, tier string, opt Options, verbose bool) int {
 	var fnsUnder []string
 	solverTime := map[string]int64{}
 	var bounded []string
-	os.MkdirAll(filepath.Join(verifDir, "replays", prop), 0o755)
+	os.MkdirAll(filepath.Join(outDir(), "replays", prop), 0o755)
 	violation := func(fn, ob string, o *ObResult, reason string) {
 		violations++
-		path := filepath.Join(verifDir, "replays", prop, sanitize(fn+"_"+ob)+".json")
+		path := filepath.Join(outDir(), "replays", prop, sanitize(fn+"_"+ob)+".json")
 		rep := map[string]interface{}{"property": prop, "function": fn, "obligation": ob, "reason": reason}
 		suffix := ""
 		if o != nil {
@@ -181,6 +189,24 @@ func runCheck(repo, prop, tier string, opt Options, verbose bool) int {
 		b, _ := json.MarshalIndent(rep, "", " ")
 		os.WriteFile(path, b, 0o644)
 		fmt.Printf("VIOLATION property=%s replay=%s%s\n", prop, path, suffix)
+	}
+	// every implementation (inside the repository) of an interface method with a type contract needs a contract
+	for _, mk := range sortedKeys(ifaceSlots) {
+		slot := w.Contracts[ifaceSlots[mk]]
+		if slot == nil || !hasProp(slot.Props, prop) {
+			continue
+		}
+		pkg, meth := mk[:strings.Index(mk, ".")], mk[strings.Index(mk, ".")+1:]
+		for _, fk := range sortedKeys(w.Funcs) {
+			f := w.Funcs[fk]
+			if f.Signature.Recv() == nil || f.Name() != meth || w.pkgOfFn(f) != pkg || f.Synthetic != "" {
+				continue
+			}
+			if w.Contracts[fk] == nil && w.Broken[fk] == nil {
+				total++
+				violation(fk, "typecontract:impl:"+mk, nil, "this method implements an interface method that has a type contract but carries no contract itself, so calls dispatched to it are not covered")
+			}
+		}
 	}
 	for _, k := range brokenKeys {
 		if kf := isKnown(k, "*"); kf != nil {
@@ -252,9 +278,9 @@ func runCheck(repo, prop, tier string, opt Options, verbose bool) int {
 		"explanation":              propExplanation(prop),
 	}
 	ev.Assumptions = propAssumptions(w, prop, keys)
-	os.MkdirAll(filepath.Join(verifDir, "evidence"), 0o755)
+	os.MkdirAll(filepath.Join(outDir(), "evidence"), 0o755)
 	b, _ := json.MarshalIndent(ev, "", " ")
-	os.WriteFile(filepath.Join(verifDir, "evidence", prop+".json"), b, 0o644)
+	os.WriteFile(filepath.Join(outDir(), "evidence", prop+".json"), b, 0o644)
 	fmt.Printf("xvc %s: %d/%d obligations discharged over %d functions, %d known findings, %d violations, %.1fs\n", prop, discharged, total, len(fnsUnder), len(knownRefuted), violations, time.Since(t0).Seconds())
 	if violations > 0 {
 		return 1
@@ -263,17 +289,17 @@ func runCheck(repo, prop, tier string, opt Options, verbose bool) int {
 }
 
 func reportUndecidable(prop, tier string, seed int, t0 time.Time, reason string) int {
-	os.MkdirAll(filepath.Join(verifDir, "replays", prop), 0o755)
-	path := filepath.Join(verifDir, "replays", prop, "load.json")
+	os.MkdirAll(filepath.Join(outDir(), "replays", prop), 0o755)
+	path := filepath.Join(outDir(), "replays", prop, "load.json")
 	b, _ := json.MarshalIndent(map[string]interface{}{"property": prop, "obligation": "all-obligations", "reason": reason}, "", " ")
 	os.WriteFile(path, b, 0o644)
 	fmt.Printf("ENGINE-NOTE: %s\n", reason)
 	fmt.Printf("VIOLATION property=%s replay=%s no-failing-input-found\n", prop, path)
 	ev := evidence{PropertyID: prop, Tier: tier, Seed: seed, Level: propLevel(prop), WallS: time.Since(t0).Seconds(), Violations: 1}
 	ev.Coverage = map[string]interface{}{"obligations": 1, "discharged": 0, "checker_cmd": "/verif/bin/xvc check " + prop, "trusted_base": trustedBase(), "explanation": reason, "evaluations": 1, "distinct_nontrivial": 0}
-	os.MkdirAll(filepath.Join(verifDir, "evidence"), 0o755)
+	os.MkdirAll(filepath.Join(outDir(), "evidence"), 0o755)
 	eb, _ := json.MarshalIndent(ev, "", " ")
-	os.WriteFile(filepath.Join(verifDir, "evidence", prop+".json"), eb, 0o644)
+	os.WriteFile(filepath.Join(outDir(), "evidence", prop+".json"), eb, 0o644)
 	return 1
 }
 
